@@ -19,7 +19,7 @@ import ast
 from ..astutil import call_name, calls, const_eval, dotted, names_in, param_names, stmts, walk_local, NotConst, Sym
 from ..cfg import CFG
 from .. import bcifwire
-from ..exprnorm import contains_expr
+from ..exprnorm import contains_expr, same_expr
 from ..core import AnalysisError, Mutant
 
 EXPLANATION = (
@@ -140,7 +140,20 @@ def run(ctx):
                            detail={"bounded_by_construction": bounded})
                 if isinstance(n, ast.Call) and call_name(n) == "_safe_cast":
                     n_cast += 1
-                    ctx.ob("R2.safe-cast-used", ENC, f"{q}.encode", n, True)
+            # encodings with a declared source/target type: the caller's array reaches the output only through _safe_cast
+            if q in ("ByteArrayEncoding", "RunLengthEncoding"):
+                dparam = param_names(m)[1]
+                value_reads = []
+                for n in walk_local(m):
+                    if isinstance(n, ast.Name) and n.id == dparam and isinstance(n.ctx, ast.Load):
+                        value_reads.append(n)
+                safe_args = {id(a) for c_ in walk_local(m) if isinstance(c_, ast.Call) and call_name(c_) == "_safe_cast" for a in c_.args[:1]}
+                meta = {id(n.value) for n in walk_local(m) if isinstance(n, ast.Attribute) and n.attr in ("dtype", "shape", "ndim", "size")}
+                raw = [n for n in value_reads if id(n) not in safe_args and id(n) not in meta]
+                ctx.ob("R2.safe-cast-used", ENC, f"{q}.encode", f"`{dparam}` reaches the output through _safe_cast only",
+                       bool(safe_args) and not raw,
+                       f"{q}.encode converts to its declared type: the caller's array must pass _safe_cast (range-checked) and must not be "
+                       f"used unconverted ({len(raw)} raw use(s), {len(safe_args)} _safe_cast call(s))", m.lineno)
     ctx.floor("casts-in-encode", n_cast, 6)
 
     # ---------------- R4 _safe_cast ----------------------------------------------
@@ -194,8 +207,11 @@ def compress_rules(ctx, R="R3", with_downcast=True):
         ctx.ob(R + ".fixed-point-guard-scaled", COMPRESS, "_compress_data", gtxt[:90],
                "* factor" in gtxt and "np.abs(array)" in gtxt,
                "the range test must be applied to the scaled magnitude |x| * factor", guards[0].line)
+        fin = [c_ for c_ in ast.walk(guards[0].ast.test) if isinstance(c_, ast.Call) and call_name(c_) == "np.isfinite" and c_.args]
+        tested = ast.unparse(fin[0].args[0]) if fin else "?"
         ctx.ob(R + ".fallback-lossless", COMPRESS, "_compress_data", "fallback ByteArrayEncoding()",
-               any("ByteArrayEncoding()" in ast.unparse(b) for b in guards[0].ast.body),
+               any(isinstance(b, ast.Return) and same_expr(b.value, f"bcif.BinaryCIFData({tested}, [ByteArrayEncoding()])")
+                   for b in guards[0].ast.body),
                "values that do not fit must be kept losslessly", guards[0].line)
     # the factor passed to the encoding is the one tested
     fp = [c for c in calls(cd) if call_name(c) == "FixedPointEncoding"]
@@ -214,6 +230,12 @@ def compress_rules(ctx, R="R3", with_downcast=True):
 
 
 MUTANTS = [
+    Mutant("compress-fallback-narrowed-array", COMPRESS,
+           "            # non-finite or too large values can only be kept as float\n            return bcif.BinaryCIFData(array, [ByteArrayEncoding()])",
+           "            # non-finite or too large values can only be kept as float\n            return bcif.BinaryCIFData(array.astype(np.float32), [ByteArrayEncoding()])",
+           "R3.fallback-lossless"),
+    Mutant("bytearray-asarray", ENC, "return _safe_cast(data, self.type.to_dtype()).tobytes()", "return np.asarray(data, dtype=self.type.to_dtype()).tobytes()", "R2.safe-cast-used"),
+    Mutant("runlength-raw", ENC, "return self._encode(_safe_cast(data, self.src_type.to_dtype()))", "return self._encode(data)", "R2.safe-cast-used"),
     Mutant("bcif-prefix-lstrip", "structure/io/pdbx/bcif.py", "name.removeprefix(\"_\"): category", "name.lstrip(\"_\"): category", "R5.prefix"),
     Mutant("bcif-mask-key", "structure/io/pdbx/bcif.py", "BinaryCIFData.deserialize(content[\"mask\"])\n", "BinaryCIFData.deserialize(content[\"data\"])\n", "R5.attribute"),
     Mutant("bcif-data-mask-swapped", "structure/io/pdbx/bcif.py", "            \"data\": self._data.serialize(),\n            \"mask\": self._mask.serialize() if self._mask is not None else None,", "            \"mask\": self._data.serialize(),\n            \"data\": self._mask.serialize() if self._mask is not None else None,", "R5.attribute"),
